@@ -52,7 +52,9 @@ impl G {
     }
     pub fn refill(&mut self, out: &mut dyn std::io::Write, dr: u32) {
         self.k += 1;
-        let mut buf = [0u8; 64];
+        // the output buffer arrives with whatever a previous use left in it: refill must overwrite, not combine
+        let fill = [0u8, 0xa5, 0xff][self.k % 3];
+        let mut buf = [fill; 64];
         let c = &mut self.c;
         let r = guarded(|| c.refill(dr, &mut buf));
         let e = Ev::new(self.k, "refill").i("dr", dr as i64).bytes("out", &buf);
@@ -60,7 +62,8 @@ impl G {
     }
     pub fn refill4(&mut self, out: &mut dyn std::io::Write, dr: u32) {
         self.k += 1;
-        let mut buf = [0u8; 256];
+        let fill = [0xa5u8, 0, 0xff][self.k % 3];
+        let mut buf = [fill; 256];
         let c = &mut self.c;
         let r = guarded(|| c.refill4(dr, &mut buf));
         let e = Ev::new(self.k, "refill4").i("dr", dr as i64).bytes("out", &buf);
